@@ -20,7 +20,7 @@ for pid in [f"C{i:02d}" for i in range(1, 21)]:
     fixed = sum(1 for k in kf if k["property"] == pid and k["status"] == "fixed")
     opn = sum(1 for k in kf if k["property"] == pid and k["status"] == "open")
     seeded = []
-    for k in (1, 2):
+    for k in (1, 2, 3, 4):
         p = os.path.join(HERE, "seeded", f"{pid}-{k}", "meta.json")
         if os.path.exists(p):
             d = json.load(open(p)).get("check", {}).get("detected")
